@@ -178,6 +178,22 @@ Fixpoint sim_bin (cs : list tree) (seen_op seen_not : bool) : str * bool :=
       end
   end.
 
+(* import.rs convert_import: the prefix (up to the item list, minus one blank) and the item nodes *)
+Definition import_split {A} (kof : A -> kind) (sub : A -> list A) (cs : list A) : list A * list A :=
+  let divider := match (fix pos (l : list A) (i : nat) := match l with [] => None | x :: r =>
+                          if (match kof x with KLeftParen | KImportItems => true | _ => false end) then Some i else pos r (S i) end) cs 0%nat with
+                 | Some i => i | None => length cs end in
+  let items_part := skipn divider cs in
+  let prefix :=
+    match divider with
+    | S d' => match nth_error cs d' with
+              | Some b => if kind_eqb (kof b) KSpace then firstn d' cs else firstn divider cs
+              | None => firstn divider cs
+              end
+    | O => []
+    end in
+  (prefix, flat_map (fun b => if kind_eqb (kof b) KImportItems then sub b else [b]) items_part).
+
 Section NodeOk.
   (* per kind: the children a converter does not hand on carry no signature; see SigConv.v for the use of each clause *)
   Definition all_kept (kept : tree -> bool) (cs : list tree) : bool :=
@@ -251,6 +267,12 @@ Section NodeOk.
             all_kept (fun c => match binop_from_kind (kind_of c) with Some _ => true | None => is_expr c end) cs
         | [] => false
         end
+    | KImportItems => true
+    | KModuleImport =>
+        let '(p, n) := import_split kind_of children cs in
+        str_eqb (tsigl cs) (tsigl p ++ tsigl n) &&
+        all_kept (fun c => match kind_of c with KColon | KStar | KIdent => true | _ => is_expr c end) p &&
+        lwalkb (fun c => match kind_of c with KRenamedImportItem | KImportItemPath => true | _ => false end) n false
     | KCode => true
     | KCodeBlock => lwalkb is_expr (flat_map (fun c => if kind_eqb (kind_of c) KCode then children c else [c]) cs) false
     | KArgs => args_ok cs && margs_ok cs
